@@ -104,6 +104,45 @@ theorem C14_partition_invariant (r : Req) (parts : List (List Doc)) (t : MTree (
   exact (fold_parts (merge r) (empty r) (merge_assoc r) (merge_comm r) (empty_merge r)
       (collect r) (collect_nil r) (collect_append r) parts).symm
 
+/-- sufficient condition for the guard of `C14_partition_invariant` at one terms node: a
+segment with at most `segment_size` distinct terms is not truncated -/
+theorem C14_noTrunc_of_small {V : Type} (p : TermsP) (t : TermsI V)
+    (h : t.map.entries.length ≤ p.segSize) : termsCut p t = t := by
+  unfold termsCut
+  simp [h]
+
+/-- with the request defaults of the current source a segment never keeps fewer buckets than
+the final result shows (`segment_size ≥ size`), whatever the request says -/
+theorem C14_segment_size_ge_size (field : Field) (missing : Option Int)
+    (size segSize mdc : Option Nat) (order : Option Order) :
+    (TermsP.ofRequest field missing size segSize mdc order).size
+      ≤ (TermsP.ofRequest field missing size segSize mdc order).segSize := by
+  unfold TermsP.ofRequest
+  have h : Gen.AGG_TERMS_SEGMENT_SIZE_AT_LEAST_SIZE = 1 := by decide
+  simp only [h, if_true]
+  omega
+
+/-- What segment-level truncation can do to a terms node (the documented approximation).
+Proved part: a truncated segment never invents or alters a bucket (each key keeps its exact
+entry or loses it entirely, so merged counts never over-estimate), and `sum_other_doc_count` /
+`doc_count_error_upper_bound` only grow.
+Full statement (checked on every generated case by the harness against the real code, not
+proved): `Σ shown counts + sum_other_doc_count = Σ true counts`, and for `_count desc`
+`true(k) − shown(k) ≤ doc_count_error_upper_bound` for every returned key `k`. -/
+theorem C14_terms_error_bound_partial {V : Type} (p : TermsP) (t : TermsI V) :
+    (∀ k, (termsCut p t).map.get k = t.map.get k ∨ (termsCut p t).map.get k = Option.none)
+      ∧ t.other ≤ (termsCut p t).other ∧ t.err ≤ (termsCut p t).err := by
+  unfold termsCut
+  by_cases h : t.map.entries.length ≤ p.segSize
+  · simp [h]
+  · simp only [h, if_false]
+    refine ⟨?_, Nat.le_add_right _ _, Nat.le_add_right _ _⟩
+    intro k
+    simp only [KMap.restrict]
+    split
+    · exact Or.inl rfl
+    · exact Or.inr rfl
+
 /-- merging after a serialisation round trip that is the identity on intermediate trees gives
 the same result (that postcard's round trip *is* the identity is tested by the harness, not
 proved) -/
@@ -205,6 +244,8 @@ def exReq : Req :=
     (.hist ⟨1, 10, 0, 0, Option.none, Option.none⟩ .none)
 def exDocs1 : List Doc := [[(0, [1]), (1, [5, 25])], [(0, [2, 1]), (1, [-5])]]
 def exDocs2 : List Doc := [[(1, [7])], [(0, [2])]]
+def exTReq : Req := .terms ⟨0, Option.none, 2, 2, 1, .countDesc⟩ .none
+def exTDocs : List Doc := [[(0, [1])], [(0, [1])], [(0, [2])], [(0, [2])], [(0, [3])]]
 
 example : (evalAgg Int exReq (exDocs1 ++ exDocs2)).1.1.map (fun b => (b.1, b.2.1)) = [(1, 2), (2, 2)] := by
   decide +kernel
@@ -213,7 +254,13 @@ example : (finalize (M := Int) exReq (merge exReq (collectSeg exReq exDocs1) (co
 example : histPos 10 0 (-5) = -1 ∧ histPos 10 3 13 = 1 ∧ histPos 10 3 12 = 0 := by decide
 example : rangeIdx [0, 10, 20] 10 = 2 ∧ rangeIdx [0, 10, 20] (-1) = 0 ∧ rangeIdx [0, 10, 20] 25 = 3 := by
   decide
+example : (TermsP.ofRequest 0 Option.none Option.none Option.none Option.none Option.none).segSize = 100 := by decide
 example : [0, 10, 20].Pairwise (fun a b : Int => a < b) := by decide
+/-- a segment with three distinct terms and `segment_size = 2` is truncated: one bucket goes to
+`sum_other_doc_count`, its count is the error bound -/
+example : ((harvest (M := Int) exTReq (collect exTReq exTDocs)).other,
+    (harvest (M := Int) exTReq (collect exTReq exTDocs)).err,
+    ((harvest (M := Int) exTReq (collect exTReq exTDocs)).map.get 3).isNone) = (1, 1, true) := by decide +kernel
 example : (match finalizeGuarded (M := Int) 2 exReq (collect exReq (exDocs1 ++ exDocs2)) with
     | .error n => n | .ok _ => 0) = 6 := by decide +kernel
 
